@@ -42,6 +42,9 @@ type Target struct {
 	Gate        string            `json:"gate,omitempty"`     // wait (bounded) until this label's S line is in the trace
 	PadKB       int               `json:"pad_kb,omitempty"`   // the first file output is padded with this many KiB (so that cache copies take time)
 	Shared      bool              `json:"shared,omitempty"`   // one more file output whose content is the same constant for every target
+	// SwapOuts (targets with >= 2 file outputs): the first two file outputs exchange their contents — the set of
+	// output digests stays the same while the assignment of contents to paths changes
+	SwapOuts bool `json:"swap_outs,omitempty"`
 }
 
 type Alias struct {
@@ -361,11 +364,15 @@ func (w WS) Expect() (outs map[string]map[string]OutFile, bodies map[string]stri
 		bodies[l] = body
 		m := map[string]OutFile{}
 		for i, f := range t.OutFiles {
-			content := body
-			if i > 0 {
-				content = fmt.Sprintf("%s#%d\n", body, i)
+			role := i
+			if t.SwapOuts && len(t.OutFiles) >= 2 && i < 2 {
+				role = 1 - i
 			}
-			if i == 0 && t.PadKB > 0 {
+			content := body
+			if role > 0 {
+				content = fmt.Sprintf("%s#%d\n", body, role)
+			}
+			if role == 0 && t.PadKB > 0 {
 				content += strings.Repeat("x", t.PadKB*1024)
 			}
 			m[t.OutPath(f)] = OutFile{Content: content, Exec: i == 0 && t.ExecBit}
@@ -461,11 +468,15 @@ func (w WS) Command(t *Target) string {
 	b.WriteString("} > \"$body\"\n")
 	// outputs
 	for i, f := range t.OutFiles {
-		fmt.Fprintf(&b, "mkdir -p \"$(dirname %s)\"; rm -rf %s; if [ ! -f \"$EXT/skipout.%s.%d\" ]; then cp \"$body\" %s", shQuote(f), shQuote(f), id, i, shQuote(f))
-		if i > 0 {
-			fmt.Fprintf(&b, "; printf '#%d\\n' >> %s", i, shQuote(f))
+		role := i
+		if t.SwapOuts && len(t.OutFiles) >= 2 && i < 2 {
+			role = 1 - i
 		}
-		if i == 0 && t.PadKB > 0 {
+		fmt.Fprintf(&b, "mkdir -p \"$(dirname %s)\"; rm -rf %s; if [ ! -f \"$EXT/skipout.%s.%d\" ]; then cp \"$body\" %s", shQuote(f), shQuote(f), id, i, shQuote(f))
+		if role > 0 {
+			fmt.Fprintf(&b, "; printf '#%d\\n' >> %s", role, shQuote(f))
+		}
+		if role == 0 && t.PadKB > 0 {
 			fmt.Fprintf(&b, "; head -c %d /dev/zero | tr '\\000' x >> %s", t.PadKB*1024, shQuote(f))
 		}
 		if i == 0 && t.ExecBit {
